@@ -42,7 +42,10 @@ Inductive blocked := BlNone | BlStream (oid : N) | BlBind (r : bindreq).
 
 (* Running; in wind-down waiting for the source to end (result code kept); ended *)
 (* RunPendingEnd: running, receive side suspended, the source has ended/failed meanwhile *)
-Inductive phase := Running | RunPendingEnd (cause : N) | WindDown6 (code : N) | Ended.
+(* WindDown4: wind-down after a handle drop, flushing the queued messages (sink not ready yet) *)
+Inductive phase := Running | RunPendingEnd (cause : N) | WindDown4 (code : N) (src_ended : bool) | WindDown6 (code : N) | Ended.
+
+Inductive msg := MBin (b : list N) | MPing | MPong | MClose.
 
 Record ep := mkEp {
   e_idx : N;
@@ -61,10 +64,10 @@ Record ep := mkEp {
   e_accept_park : bool; e_dgram_park : bool; e_nextbind_park : bool;
   e_mux_alive : bool;
   e_phase : phase;
-  e_tx_closed : bool                (* the outbound queue has been closed *)
+  e_tx_closed : bool;               (* the outbound queue has been closed *)
+  e_txq : list msg;                 (* messages queued for the sink *)
+  e_permits : option N              (* how many messages the sink still accepts; None = always ready *)
 }.
-
-Inductive msg := MBin (b : list N) | MPing | MPong | MClose.
 
 (* what a label produces besides the new state *)
 Record eff := mkEff {
@@ -77,21 +80,23 @@ Record eff := mkEff {
 
 (* ------------------------------------------------------------------ helpers *)
 
-Definition set_streams e v := mkEp (e_idx e) (e_rwnd e) (e_th e) (e_accept_cap e) (e_dgram_cap e) (e_bind_cap e) (e_retries e) (e_rng e) (e_fallback e) v (e_handles e) (e_slots e) (e_opens e) (e_binds e) (e_bindreqs e) (e_accept_q e) (e_dgram_q e) (e_bind_q e) (e_blocked e) (e_accept_park e) (e_dgram_park e) (e_nextbind_park e) (e_mux_alive e) (e_phase e) (e_tx_closed e).
-Definition set_handles e v := mkEp (e_idx e) (e_rwnd e) (e_th e) (e_accept_cap e) (e_dgram_cap e) (e_bind_cap e) (e_retries e) (e_rng e) (e_fallback e) (e_streams e) v (e_slots e) (e_opens e) (e_binds e) (e_bindreqs e) (e_accept_q e) (e_dgram_q e) (e_bind_q e) (e_blocked e) (e_accept_park e) (e_dgram_park e) (e_nextbind_park e) (e_mux_alive e) (e_phase e) (e_tx_closed e).
-Definition set_slots e v := mkEp (e_idx e) (e_rwnd e) (e_th e) (e_accept_cap e) (e_dgram_cap e) (e_bind_cap e) (e_retries e) (e_rng e) (e_fallback e) (e_streams e) (e_handles e) v (e_opens e) (e_binds e) (e_bindreqs e) (e_accept_q e) (e_dgram_q e) (e_bind_q e) (e_blocked e) (e_accept_park e) (e_dgram_park e) (e_nextbind_park e) (e_mux_alive e) (e_phase e) (e_tx_closed e).
-Definition set_opens e v := mkEp (e_idx e) (e_rwnd e) (e_th e) (e_accept_cap e) (e_dgram_cap e) (e_bind_cap e) (e_retries e) (e_rng e) (e_fallback e) (e_streams e) (e_handles e) (e_slots e) v (e_binds e) (e_bindreqs e) (e_accept_q e) (e_dgram_q e) (e_bind_q e) (e_blocked e) (e_accept_park e) (e_dgram_park e) (e_nextbind_park e) (e_mux_alive e) (e_phase e) (e_tx_closed e).
-Definition set_binds e v := mkEp (e_idx e) (e_rwnd e) (e_th e) (e_accept_cap e) (e_dgram_cap e) (e_bind_cap e) (e_retries e) (e_rng e) (e_fallback e) (e_streams e) (e_handles e) (e_slots e) (e_opens e) v (e_bindreqs e) (e_accept_q e) (e_dgram_q e) (e_bind_q e) (e_blocked e) (e_accept_park e) (e_dgram_park e) (e_nextbind_park e) (e_mux_alive e) (e_phase e) (e_tx_closed e).
-Definition set_bindreqs e v := mkEp (e_idx e) (e_rwnd e) (e_th e) (e_accept_cap e) (e_dgram_cap e) (e_bind_cap e) (e_retries e) (e_rng e) (e_fallback e) (e_streams e) (e_handles e) (e_slots e) (e_opens e) (e_binds e) v (e_accept_q e) (e_dgram_q e) (e_bind_q e) (e_blocked e) (e_accept_park e) (e_dgram_park e) (e_nextbind_park e) (e_mux_alive e) (e_phase e) (e_tx_closed e).
-Definition set_accept_q e v := mkEp (e_idx e) (e_rwnd e) (e_th e) (e_accept_cap e) (e_dgram_cap e) (e_bind_cap e) (e_retries e) (e_rng e) (e_fallback e) (e_streams e) (e_handles e) (e_slots e) (e_opens e) (e_binds e) (e_bindreqs e) v (e_dgram_q e) (e_bind_q e) (e_blocked e) (e_accept_park e) (e_dgram_park e) (e_nextbind_park e) (e_mux_alive e) (e_phase e) (e_tx_closed e).
-Definition set_dgram_q e v := mkEp (e_idx e) (e_rwnd e) (e_th e) (e_accept_cap e) (e_dgram_cap e) (e_bind_cap e) (e_retries e) (e_rng e) (e_fallback e) (e_streams e) (e_handles e) (e_slots e) (e_opens e) (e_binds e) (e_bindreqs e) (e_accept_q e) v (e_bind_q e) (e_blocked e) (e_accept_park e) (e_dgram_park e) (e_nextbind_park e) (e_mux_alive e) (e_phase e) (e_tx_closed e).
-Definition set_bind_q e v := mkEp (e_idx e) (e_rwnd e) (e_th e) (e_accept_cap e) (e_dgram_cap e) (e_bind_cap e) (e_retries e) (e_rng e) (e_fallback e) (e_streams e) (e_handles e) (e_slots e) (e_opens e) (e_binds e) (e_bindreqs e) (e_accept_q e) (e_dgram_q e) v (e_blocked e) (e_accept_park e) (e_dgram_park e) (e_nextbind_park e) (e_mux_alive e) (e_phase e) (e_tx_closed e).
-Definition set_blocked e v := mkEp (e_idx e) (e_rwnd e) (e_th e) (e_accept_cap e) (e_dgram_cap e) (e_bind_cap e) (e_retries e) (e_rng e) (e_fallback e) (e_streams e) (e_handles e) (e_slots e) (e_opens e) (e_binds e) (e_bindreqs e) (e_accept_q e) (e_dgram_q e) (e_bind_q e) v (e_accept_park e) (e_dgram_park e) (e_nextbind_park e) (e_mux_alive e) (e_phase e) (e_tx_closed e).
-Definition set_parks e a d n := mkEp (e_idx e) (e_rwnd e) (e_th e) (e_accept_cap e) (e_dgram_cap e) (e_bind_cap e) (e_retries e) (e_rng e) (e_fallback e) (e_streams e) (e_handles e) (e_slots e) (e_opens e) (e_binds e) (e_bindreqs e) (e_accept_q e) (e_dgram_q e) (e_bind_q e) (e_blocked e) a d n (e_mux_alive e) (e_phase e) (e_tx_closed e).
-Definition set_mux_alive e v := mkEp (e_idx e) (e_rwnd e) (e_th e) (e_accept_cap e) (e_dgram_cap e) (e_bind_cap e) (e_retries e) (e_rng e) (e_fallback e) (e_streams e) (e_handles e) (e_slots e) (e_opens e) (e_binds e) (e_bindreqs e) (e_accept_q e) (e_dgram_q e) (e_bind_q e) (e_blocked e) (e_accept_park e) (e_dgram_park e) (e_nextbind_park e) v (e_phase e) (e_tx_closed e).
-Definition set_phase e v := mkEp (e_idx e) (e_rwnd e) (e_th e) (e_accept_cap e) (e_dgram_cap e) (e_bind_cap e) (e_retries e) (e_rng e) (e_fallback e) (e_streams e) (e_handles e) (e_slots e) (e_opens e) (e_binds e) (e_bindreqs e) (e_accept_q e) (e_dgram_q e) (e_bind_q e) (e_blocked e) (e_accept_park e) (e_dgram_park e) (e_nextbind_park e) (e_mux_alive e) v (e_tx_closed e).
-Definition set_tx_closed e v := mkEp (e_idx e) (e_rwnd e) (e_th e) (e_accept_cap e) (e_dgram_cap e) (e_bind_cap e) (e_retries e) (e_rng e) (e_fallback e) (e_streams e) (e_handles e) (e_slots e) (e_opens e) (e_binds e) (e_bindreqs e) (e_accept_q e) (e_dgram_q e) (e_bind_q e) (e_blocked e) (e_accept_park e) (e_dgram_park e) (e_nextbind_park e) (e_mux_alive e) (e_phase e) v.
-Definition set_rng e r f := mkEp (e_idx e) (e_rwnd e) (e_th e) (e_accept_cap e) (e_dgram_cap e) (e_bind_cap e) (e_retries e) r f (e_streams e) (e_handles e) (e_slots e) (e_opens e) (e_binds e) (e_bindreqs e) (e_accept_q e) (e_dgram_q e) (e_bind_q e) (e_blocked e) (e_accept_park e) (e_dgram_park e) (e_nextbind_park e) (e_mux_alive e) (e_phase e) (e_tx_closed e).
+Definition set_streams e v0 := mkEp (e_idx e) (e_rwnd e) (e_th e) (e_accept_cap e) (e_dgram_cap e) (e_bind_cap e) (e_retries e) (e_rng e) (e_fallback e) v0 (e_handles e) (e_slots e) (e_opens e) (e_binds e) (e_bindreqs e) (e_accept_q e) (e_dgram_q e) (e_bind_q e) (e_blocked e) (e_accept_park e) (e_dgram_park e) (e_nextbind_park e) (e_mux_alive e) (e_phase e) (e_tx_closed e) (e_txq e) (e_permits e).
+Definition set_handles e v0 := mkEp (e_idx e) (e_rwnd e) (e_th e) (e_accept_cap e) (e_dgram_cap e) (e_bind_cap e) (e_retries e) (e_rng e) (e_fallback e) (e_streams e) v0 (e_slots e) (e_opens e) (e_binds e) (e_bindreqs e) (e_accept_q e) (e_dgram_q e) (e_bind_q e) (e_blocked e) (e_accept_park e) (e_dgram_park e) (e_nextbind_park e) (e_mux_alive e) (e_phase e) (e_tx_closed e) (e_txq e) (e_permits e).
+Definition set_slots e v0 := mkEp (e_idx e) (e_rwnd e) (e_th e) (e_accept_cap e) (e_dgram_cap e) (e_bind_cap e) (e_retries e) (e_rng e) (e_fallback e) (e_streams e) (e_handles e) v0 (e_opens e) (e_binds e) (e_bindreqs e) (e_accept_q e) (e_dgram_q e) (e_bind_q e) (e_blocked e) (e_accept_park e) (e_dgram_park e) (e_nextbind_park e) (e_mux_alive e) (e_phase e) (e_tx_closed e) (e_txq e) (e_permits e).
+Definition set_opens e v0 := mkEp (e_idx e) (e_rwnd e) (e_th e) (e_accept_cap e) (e_dgram_cap e) (e_bind_cap e) (e_retries e) (e_rng e) (e_fallback e) (e_streams e) (e_handles e) (e_slots e) v0 (e_binds e) (e_bindreqs e) (e_accept_q e) (e_dgram_q e) (e_bind_q e) (e_blocked e) (e_accept_park e) (e_dgram_park e) (e_nextbind_park e) (e_mux_alive e) (e_phase e) (e_tx_closed e) (e_txq e) (e_permits e).
+Definition set_binds e v0 := mkEp (e_idx e) (e_rwnd e) (e_th e) (e_accept_cap e) (e_dgram_cap e) (e_bind_cap e) (e_retries e) (e_rng e) (e_fallback e) (e_streams e) (e_handles e) (e_slots e) (e_opens e) v0 (e_bindreqs e) (e_accept_q e) (e_dgram_q e) (e_bind_q e) (e_blocked e) (e_accept_park e) (e_dgram_park e) (e_nextbind_park e) (e_mux_alive e) (e_phase e) (e_tx_closed e) (e_txq e) (e_permits e).
+Definition set_bindreqs e v0 := mkEp (e_idx e) (e_rwnd e) (e_th e) (e_accept_cap e) (e_dgram_cap e) (e_bind_cap e) (e_retries e) (e_rng e) (e_fallback e) (e_streams e) (e_handles e) (e_slots e) (e_opens e) (e_binds e) v0 (e_accept_q e) (e_dgram_q e) (e_bind_q e) (e_blocked e) (e_accept_park e) (e_dgram_park e) (e_nextbind_park e) (e_mux_alive e) (e_phase e) (e_tx_closed e) (e_txq e) (e_permits e).
+Definition set_accept_q e v0 := mkEp (e_idx e) (e_rwnd e) (e_th e) (e_accept_cap e) (e_dgram_cap e) (e_bind_cap e) (e_retries e) (e_rng e) (e_fallback e) (e_streams e) (e_handles e) (e_slots e) (e_opens e) (e_binds e) (e_bindreqs e) v0 (e_dgram_q e) (e_bind_q e) (e_blocked e) (e_accept_park e) (e_dgram_park e) (e_nextbind_park e) (e_mux_alive e) (e_phase e) (e_tx_closed e) (e_txq e) (e_permits e).
+Definition set_dgram_q e v0 := mkEp (e_idx e) (e_rwnd e) (e_th e) (e_accept_cap e) (e_dgram_cap e) (e_bind_cap e) (e_retries e) (e_rng e) (e_fallback e) (e_streams e) (e_handles e) (e_slots e) (e_opens e) (e_binds e) (e_bindreqs e) (e_accept_q e) v0 (e_bind_q e) (e_blocked e) (e_accept_park e) (e_dgram_park e) (e_nextbind_park e) (e_mux_alive e) (e_phase e) (e_tx_closed e) (e_txq e) (e_permits e).
+Definition set_bind_q e v0 := mkEp (e_idx e) (e_rwnd e) (e_th e) (e_accept_cap e) (e_dgram_cap e) (e_bind_cap e) (e_retries e) (e_rng e) (e_fallback e) (e_streams e) (e_handles e) (e_slots e) (e_opens e) (e_binds e) (e_bindreqs e) (e_accept_q e) (e_dgram_q e) v0 (e_blocked e) (e_accept_park e) (e_dgram_park e) (e_nextbind_park e) (e_mux_alive e) (e_phase e) (e_tx_closed e) (e_txq e) (e_permits e).
+Definition set_blocked e v0 := mkEp (e_idx e) (e_rwnd e) (e_th e) (e_accept_cap e) (e_dgram_cap e) (e_bind_cap e) (e_retries e) (e_rng e) (e_fallback e) (e_streams e) (e_handles e) (e_slots e) (e_opens e) (e_binds e) (e_bindreqs e) (e_accept_q e) (e_dgram_q e) (e_bind_q e) v0 (e_accept_park e) (e_dgram_park e) (e_nextbind_park e) (e_mux_alive e) (e_phase e) (e_tx_closed e) (e_txq e) (e_permits e).
+Definition set_parks e v0 v1 v2 := mkEp (e_idx e) (e_rwnd e) (e_th e) (e_accept_cap e) (e_dgram_cap e) (e_bind_cap e) (e_retries e) (e_rng e) (e_fallback e) (e_streams e) (e_handles e) (e_slots e) (e_opens e) (e_binds e) (e_bindreqs e) (e_accept_q e) (e_dgram_q e) (e_bind_q e) (e_blocked e) v0 v1 v2 (e_mux_alive e) (e_phase e) (e_tx_closed e) (e_txq e) (e_permits e).
+Definition set_mux_alive e v0 := mkEp (e_idx e) (e_rwnd e) (e_th e) (e_accept_cap e) (e_dgram_cap e) (e_bind_cap e) (e_retries e) (e_rng e) (e_fallback e) (e_streams e) (e_handles e) (e_slots e) (e_opens e) (e_binds e) (e_bindreqs e) (e_accept_q e) (e_dgram_q e) (e_bind_q e) (e_blocked e) (e_accept_park e) (e_dgram_park e) (e_nextbind_park e) v0 (e_phase e) (e_tx_closed e) (e_txq e) (e_permits e).
+Definition set_phase e v0 := mkEp (e_idx e) (e_rwnd e) (e_th e) (e_accept_cap e) (e_dgram_cap e) (e_bind_cap e) (e_retries e) (e_rng e) (e_fallback e) (e_streams e) (e_handles e) (e_slots e) (e_opens e) (e_binds e) (e_bindreqs e) (e_accept_q e) (e_dgram_q e) (e_bind_q e) (e_blocked e) (e_accept_park e) (e_dgram_park e) (e_nextbind_park e) (e_mux_alive e) v0 (e_tx_closed e) (e_txq e) (e_permits e).
+Definition set_tx_closed e v0 := mkEp (e_idx e) (e_rwnd e) (e_th e) (e_accept_cap e) (e_dgram_cap e) (e_bind_cap e) (e_retries e) (e_rng e) (e_fallback e) (e_streams e) (e_handles e) (e_slots e) (e_opens e) (e_binds e) (e_bindreqs e) (e_accept_q e) (e_dgram_q e) (e_bind_q e) (e_blocked e) (e_accept_park e) (e_dgram_park e) (e_nextbind_park e) (e_mux_alive e) (e_phase e) v0 (e_txq e) (e_permits e).
+Definition set_rng e v0 v1 := mkEp (e_idx e) (e_rwnd e) (e_th e) (e_accept_cap e) (e_dgram_cap e) (e_bind_cap e) (e_retries e) v0 v1 (e_streams e) (e_handles e) (e_slots e) (e_opens e) (e_binds e) (e_bindreqs e) (e_accept_q e) (e_dgram_q e) (e_bind_q e) (e_blocked e) (e_accept_park e) (e_dgram_park e) (e_nextbind_park e) (e_mux_alive e) (e_phase e) (e_tx_closed e) (e_txq e) (e_permits e).
+Definition set_txq e v0 := mkEp (e_idx e) (e_rwnd e) (e_th e) (e_accept_cap e) (e_dgram_cap e) (e_bind_cap e) (e_retries e) (e_rng e) (e_fallback e) (e_streams e) (e_handles e) (e_slots e) (e_opens e) (e_binds e) (e_bindreqs e) (e_accept_q e) (e_dgram_q e) (e_bind_q e) (e_blocked e) (e_accept_park e) (e_dgram_park e) (e_nextbind_park e) (e_mux_alive e) (e_phase e) (e_tx_closed e) v0 (e_permits e).
+Definition set_permits e v0 := mkEp (e_idx e) (e_rwnd e) (e_th e) (e_accept_cap e) (e_dgram_cap e) (e_bind_cap e) (e_retries e) (e_rng e) (e_fallback e) (e_streams e) (e_handles e) (e_slots e) (e_opens e) (e_binds e) (e_bindreqs e) (e_accept_q e) (e_dgram_q e) (e_bind_q e) (e_blocked e) (e_accept_park e) (e_dgram_park e) (e_nextbind_park e) (e_mux_alive e) (e_phase e) (e_tx_closed e) (e_txq e) v0.
 
 Definition nth_opt {A} (l : list A) (i : N) : option A := nth_error l (N.to_nat i).
 
@@ -419,16 +424,25 @@ Definition drop_blocked (f : eff) : eff :=
   | BlNone => f
   end.
 
-(* wind_down up to the source drain.  [wait]: the cause was not an error, so the task
-   waits for the source to end; [src_ended]: the source has already ended *)
-Definition wind_down (f : eff) (code : N) (wait : bool) (src_ended : bool) : eff :=
+(* the rest of wind_down once the outbound queue is dealt with: close the sink, then wait for
+   the source to end (unless the cause was an error or it has ended already) *)
+Definition wind_down2 (f : eff) (code : N) (wait : bool) (src_ended : bool) : eff :=
+  let f := mkEff (f_ep f) (f_out f) (f_wakes f) true (f_done f) in
+  if wait && negb src_ended then with_ep f (set_phase (f_ep f) (WindDown6 code))
+  else finish_task f code.
+
+(* wind_down.  [wait]: the cause was not an error, so the task waits for the source to end;
+   [src_ended]: the source has already ended; [drain]: the cause was a handle drop, the queued
+   messages are still sent (phase WindDown4 until the sink has taken them all) *)
+Definition wind_down (f : eff) (code : N) (wait : bool) (src_ended : bool) (drain : bool) : eff :=
   (* whatever the cancelled hand-over queues is not flushed (only a handle drop drains) *)
   let f := mkEff (f_ep (drop_blocked f)) (f_out f) (f_wakes f) (f_closed f) (f_done f) in
   let f := disallow_all f (e_slots (f_ep f)) in
   let f := with_ep f (set_tx_closed (f_ep f) true) in
-  let f := mkEff (f_ep f) (f_out f) (f_wakes f) true (f_done f) in
-  if wait && negb src_ended then with_ep f (set_phase (f_ep f) (WindDown6 code))
-  else finish_task f code.
+  if drain then with_ep f (set_phase (f_ep f) (WindDown4 code src_ended))
+  else
+    (* nothing queued is sent any more *)
+    wind_down2 (mkEff (set_txq (f_ep f) []) [] (f_wakes f) (f_closed f) (f_done f)) code wait src_ended.
 
 (* one message taken from the source *)
 Definition deliver (f : eff) (m : msg) : eff * bool :=
@@ -439,11 +453,12 @@ Definition deliver (f : eff) (m : msg) : eff * bool :=
       let '(f, r) := process_message f m false in
       match r with
       | RxContinue => (f, true)
-      | RxClosed => (wind_down f 0 true false, true)
-      | RxError c => (wind_down f (100 + c) false false, true)
+      | RxClosed => (wind_down f 0 true false false, true)
+      | RxError c => (wind_down f (100 + c) false false false, true)
       end
   | Running, _ => (f, false)
   | RunPendingEnd _, _ => (f, false)
+  | WindDown4 _ _, _ => (f, false)
   | WindDown6 _, _ =>
       let '(f, _) := process_message f m true in (f, true)
   end.
@@ -454,13 +469,14 @@ Definition source_event (f : eff) (cause : N) : eff :=
   match e_phase e with
   | Ended => f
   | WindDown6 code => finish_task f code
+  | WindDown4 code _ => with_ep f (set_phase e (WindDown4 code true))   (* noticed after the flush *)
   | RunPendingEnd c => if c =? 0 then with_ep f (set_phase e (RunPendingEnd cause)) else f
   | Running =>
       match e_blocked e with
       | BlNone =>
           match cause with
-          | 0 => wind_down f 0 true true
-          | _ => wind_down f 107 false true
+          | 0 => wind_down f 0 true true false
+          | _ => wind_down f 107 false true false
           end
       | _ => with_ep f (set_phase e (RunPendingEnd cause))   (* not noticed while suspended *)
       end
@@ -517,7 +533,8 @@ Inductive label :=
 | LBindDrop (e rid : N)
 | LDropMux (e : N)
 | LInject (e : N) (m : msg)
-| LEnd (e cause : N).
+| LEnd (e cause : N)
+| LPermits (e n : N).
 
 Definition R_PENDING : list N := [1].
 Definition R_NA : list N := [3].
@@ -797,7 +814,7 @@ Definition do_drop_mux (f : eff) : eff * list N :=
     (* the suspended hand-over to the accept queue fails: the receive loop ends with
        SendStreamToClient before the drop is noticed; nothing queued is flushed *)
     let e := mark (fold_left kill_unclaimed (e_opens e) e) in
-    (wind_down (with_ep f e) 101 false false, [0])
+    (wind_down (with_ep f e) 101 false false false, [0])
   else
     (* queued bind requests are dropped with the handle (rejecting them); then the task
        sees the handles dropped with the pending requests, then the drop itself *)
@@ -813,14 +830,38 @@ Definition do_drop_mux (f : eff) : eff * list N :=
         let f := if running (e_phase e) then drop_blocked f else f in
         let f := fold_left drop_unclaimed (e_opens e) f in
         let f := with_ep f (mark (f_ep f)) in
-        if running (e_phase (f_ep f)) then (wind_down f 0 true false, [0]) else (f, [0])
+        if running (e_phase (f_ep f)) then (wind_down f 0 true false true, [0]) else (f, [0])
     end.
 
 Definition do_end (f : eff) (cause : N) : eff * list N :=
   match cause with
   | 0 | 1 => (source_event f cause, [0])
   | _ =>
-      if running (e_phase (f_ep f)) then (wind_down f 107 false false, [0]) else (f, [0])
+      match e_phase (f_ep f) with
+      | Running | RunPendingEnd _ => (wind_down f 107 false false false, [0])
+      | WindDown4 code ended =>
+          (* the flush stops at the sink error; the rest of the wind-down goes on *)
+          (wind_down2 (mkEff (set_txq (f_ep f) []) [] (f_wakes f) (f_closed f) (f_done f)) code true ended, [0])
+      | _ => (f, [0])
+      end
+  end.
+
+(* the end of a label: the send loop hands queued messages to the sink as far as it is ready *)
+Definition settle (f : eff) : eff :=
+  let e := f_ep f in
+  match e_phase e with
+  | WindDown6 _ | Ended => f
+  | _ =>
+      let q := e_txq e ++ f_out f in
+      let n := match e_permits e with None => len q | Some p => N.min p (len q) end in
+      let sent := firstn (N.to_nat n) q in
+      let rest := skipn (N.to_nat n) q in
+      let e := set_permits (set_txq e rest) (match e_permits e with None => None | Some p => Some (p - n) end) in
+      let f := mkEff e sent (f_wakes f) (f_closed f) (f_done f) in
+      match e_phase e, rest with
+      | WindDown4 code ended, [] => wind_down2 f code true ended
+      | _, _ => f
+      end
   end.
 
 (* ------------------------------------------------------------------ the pair *)
@@ -836,6 +877,7 @@ Record lout := mkLout {
 (* apply an endpoint-local step to endpoint [e] of the pair *)
 Definition on_ep (s : sys) (e : N) (k : eff -> eff * list N) : sys * lout :=
   let '(f, res) := k (start (get_ep s e)) in
+  let f := settle f in
   if e =? 0 then
     (mkSys (f_ep f) (s_b s) (s_la s ++ f_out f) (s_lb s),
      mkLout res (sort (f_wakes f)) (f_out f) (f_closed f) [] false (f_done f))
@@ -867,6 +909,7 @@ Definition step (s : sys) (l : label) : sys * lout :=
       | [] => (s, mkLout R_NA [] [] false [] false [])
       | m :: rest =>
           let '(f, consumed) := deliver (start (get_ep s rx)) m in
+          let f := settle f in
           if consumed then
             if d =? 0 then
               (mkSys (s_a s) (f_ep f) rest (s_lb s ++ f_out f),
@@ -888,11 +931,13 @@ Definition step (s : sys) (l : label) : sys * lout :=
       if e =? 0 then (mkSys (s_a s) (s_b s) (s_la s) (s_lb s ++ [m]), mkLout [0] [] [] false [] false [])
       else (mkSys (s_a s) (s_b s) (s_la s ++ [m]) (s_lb s), mkLout [0] [] [] false [] false [])
   | LEnd e cause => on_ep s e (fun f => do_end f cause)
+  | LPermits e n =>
+      on_ep s e (fun f => (with_ep f (set_permits (f_ep f) (if 999999 <=? n then None else Some n)), [0]))
   end.
 
 Definition init_ep (idx rwnd th acc dg bd retries : N) (rng : list N) : ep :=
   mkEp idx rwnd th acc dg bd retries rng (1073741824 + idx * 268435456)
-       [] [] [] [] [] [] [] [] [] BlNone false false false true Running false.
+       [] [] [] [] [] [] [] [] [] BlNone false false false true Running false [] None.
 
 Fixpoint run (s : sys) (ls : list label) : sys * list lout :=
   match ls with
